@@ -11,6 +11,7 @@ from __future__ import annotations
 
 import datetime as dt_
 
+from .. import worker
 from .. import core, obs, seeds
 from ..ref import tzref
 
@@ -172,7 +173,8 @@ def run_shard(shard):
     if shard.get("kind") == "chains":
         from .. import chain
         for sd in shard["seeds"]:
-            chain.explore(acc, pendulum, sd["z"], sd["inst"], sd["zones"], shard["depth"], {'fixed'})
+            with worker.guarded(acc, "chain", {"kind": "chain", "z": sd["z"], "inst": sd["inst"], "zones": sd["zones"]}, 300):
+                chain.explore(acc, pendulum, sd["z"], sd["inst"], sd["zones"], shard["depth"], {'fixed'})
             acc.c["nontrivial"] += 1
         acc.sample({"chain_seed": [shard["seeds"][0]["z"], obs.iso(shard["seeds"][0]["inst"])], "depth": shard["depth"],
                     "zones": [str(z) for z in shard["seeds"][0]["zones"]],
@@ -197,7 +199,8 @@ def run_shard(shard):
             if crossing:
                 acc.c["nontrivial"] += 1
             for i, kw in enumerate(amounts):
-                check_case(acc, pendulum, z, inst, kw, variants=(shard["thorough"] or i % 3 == inst % 3))
+                with worker.guarded(acc, "add", {"kind": "c", "z": z, "inst": inst, "kw": kw}):
+                    check_case(acc, pendulum, z, inst, kw, variants=(shard["thorough"] or i % 3 == inst % 3))
         if z is not None and not isinstance(z, int) and insts:
             acc.sample({"zone": z, "instant": obs.iso(insts[0]), "amount": amounts[3]})
     acc.c["states"] += len(seen_states)
@@ -210,7 +213,8 @@ def replay_case(case, acc):
         from .. import chain
         chain.replay(acc, pendulum, case, {'fixed'})
         return
-    check_case(acc, pendulum, case["z"], case["inst"], case["kw"], variants=True)
+    with worker.guarded(acc, "add", case):
+        check_case(acc, pendulum, case["z"], case["inst"], case["kw"], variants=True)
 
 
 def plan(tier, seed):
